@@ -68,6 +68,10 @@ CHECKS = {
                 technique="Names.tla over enumerator lists generated from the public headers at check time; exhaustive over an integer range; ASan+UBSan build, one forked child per value",
                 text="For every integer in -3..40 (quick) / -300..1000 (thorough) TLC decides from the header-derived enumerator lists what rtr_state_to_str / rtr_mgr_status_to_str must return (the enumerator's name, or NULL); the real functions are called in an ASan build where the name tables have red zones.",
                 note="finite range enumerated completely; enumerators assumed consecutive from 0 (checked by the generator)"),
+    "C18": dict(engine="alloc", cat="fault_enumeration", ref="5/C18",
+                technique="k-th-allocation failure enumeration through lrtr_set_alloc_functions with a tagged-header allocator; every run's trace validated against the table trace specs whose failing variants (OpFails: error, nothing changed, no callback) are admissible only in the call where the failure was injected; whole synchronisations validated for containment by RtrSocketTrace.tla (OK_C18)",
+                text="For each table history a counting run checks that nothing stays allocated and no block reaches the wrong allocator; then every allocation k is failed once in a fresh process. TLC accepts a run only if the operation that saw the failure either reported an error with no effect at all or succeeded, and all later operations behave per contract (set semantics intact). A process that dies is an observation identified by the rtrlib/tommyds function whose allocation was failed. The same enumeration over conversations with full loads, deltas and atomic reloads checks no crash/hang, other sources' records untouched, callbacks consistent.",
+                note="single failures per run; private reload helpers excluded from the table histories; synchronisations checked for containment, not all-or-nothing; one open known finding (tommy_hashlin_init)"),
 }
 
 NA_REASON = "check not built yet in this round (planned: see DESIGN.md section 5); no claim is made"
